@@ -38,7 +38,8 @@ RULE = ("Hypothesis-generated cases, five clauses. ellipsoid: (ellipsoid, latitu
         "[1e-3, 1e3] AU or at the range ends, all hour angles / sidereal times: angular "
         "displacement (unit vectors) against the horizontal-parallax bound. Non-trivial: "
         "|lat| > 89 or < 1 deg, user ellipsoid, a degenerate or constructed pair (anything but "
-        "'general'), distance < 0.01 AU or > 100 AU; distinct = distinct case.")
+        "'general'), distance < 0.01 AU or > 100 AU; distinct = distinct case."
+        " Every other user ellipsoid is reached by switching an Earth object that served another ellipsoid with set(); the prior ellipsoid is unrelated, or differs in the angular velocity only, or in the flattening only.")
 ASSUMPTIONS = [
     "semidiameter correction of parallax_ecliptical: physical envelope 1.5 x/(1-x) sd plus the double-precision forward error 1e-14/cos(latitude) of the quotient of two quantities of size cos(latitude) (matters only within ~1e-6 deg of an ecliptic pole)",
     "identities of the ellipsoid clause are held to 1e-12 relative (height term 1e-14 absolute; "
